@@ -294,6 +294,7 @@ func visitInstr(fr *frame, instr ssa.Instruction) continuation {
 
 	case *ssa.If:
 		succ := 1
+		m.lastIf = instr
 		if m.branch(fr.get(instr.Cond).(*Term)) {
 			succ = 0
 		}
@@ -518,9 +519,12 @@ func callSSA(th *thread, caller *frame, callpos token.Pos, fn *ssa.Function, arg
 	}
 	if len(m.stubs) > 0 {
 		name := fn.String()
-		for suf, cnt := range m.stubs {
-			if strings.HasSuffix(name, suf) {
-				*cnt++
+		for suf, st := range m.stubs {
+			if strings.Contains(name, suf) {
+				st.calls++
+				if st.nondet {
+					return m.nondetResult(fn, suf)
+				}
 				return zeroResult(fn)
 			}
 		}
@@ -995,4 +999,31 @@ func posString(prog *ssa.Program, pos token.Pos) string {
 		f = f[i+6:]
 	}
 	return fmt.Sprintf("%s:%d", f, p.Line)
+}
+
+// nondetResult returns arbitrary (fresh symbolic) scalar results for a stubbed pure callee.
+func (m *machine) nondetResult(fn *ssa.Function, tag string) value {
+	res := fn.Signature.Results()
+	one := func(t types.Type) value {
+		if b, ok := t.Underlying().(*types.Basic); ok {
+			switch {
+			case b.Info()&types.IsBoolean != 0:
+				return m.fresh("stub:"+tag, BoolSort)
+			case b.Info()&types.IsInteger != 0:
+				return m.fresh("stub:"+tag, BV(bitsOf(b)))
+			}
+		}
+		return zero(t)
+	}
+	switch res.Len() {
+	case 0:
+		return nil
+	case 1:
+		return one(res.At(0).Type())
+	}
+	tp := make(tuple, res.Len())
+	for i := range tp {
+		tp[i] = one(res.At(i).Type())
+	}
+	return tp
 }
